@@ -80,8 +80,19 @@ def filter_case(ctx, rng, idx):
     from ..observe import lib_args
 
     S = observe(h)
+    pool = []  # metadata dictionaries already handed over: clients attach ONE dictionary object to several items (a node and a
+    # hyperedge included); nothing is edited afterwards, the filter only reads them
+    share = rng.random() < 0.4
+
+    def pick_md(rng_):
+        if share and pool and rng_.random() < 0.4:
+            return rng_.choice(pool)
+        md_ = rand_md(rng_)
+        pool.append(md_)
+        return md_
+
     for n in S.nodes:
-        md = rand_md(rng)
+        md = pick_md(rng)
         if hasattr(h, "set_node_metadata"):
             h.set_node_metadata(n, md)
         else:
@@ -92,7 +103,7 @@ def filter_case(ctx, rng, idx):
     for k in S.edges:
         if K.size(k) == 0:
             continue
-        md = rand_md(rng)
+        md = pick_md(rng)
         a = lib_args(kind, k)
         if hasattr(h, "set_edge_metadata"):
             h.set_edge_metadata(*a, md)
@@ -253,62 +264,92 @@ def svh_case(ctx, rng, idx):
         ctx.event("svh:120000-occurrences")
         weighted, fam = True, 1.0
         es = {(1, 2): 40, (3, 4): 3, (5, 6): 60000, (7, 8): 60000, (1, 9, 10): 2}
-    h = hgx.Hypergraph(list(es), weighted=weighted, weights=list(es.values()) if weighted else None)
     max_order = rng.choice([2, 3, 4, 5, 10]) if fam >= 0.12 else 10
 
-    def wit(extra=None):
-        return {"edges": {repr(e): w for e, w in es.items()}, "weighted": weighted, "max_order": max_order, "extra": repr(extra)[:900]}
+    def judge(es, h, tagx=""):
 
-    r = call(get_svh, h, max_order=npize(rng, max_order))
-    if isinstance(r, _Raised):
-        ctx.check("C19:svh", False, f"C19:get_svh:raised:{type(r.e).__name__}", lambda: wit(r))
+        def wit(extra=None):
+            return {"variant": tagx, "edges": {repr(e): w for e, w in es.items()}, "weighted": weighted, "max_order": max_order, "extra": repr(extra)[:900]}
+
+        r = call(get_svh, h, max_order=npize(rng, max_order))
+        if isinstance(r, _Raised):
+            ctx.check("C19:svh", False, f"C19:get_svh:raised:{type(r.e).__name__}", lambda: wit(r))
+            return
+        by_size = {}
+        for e, w in es.items():
+            by_size.setdefault(len(e), {})[e] = w
+        exp_sizes = sorted(n for n in by_size if 2 <= n <= max_order)
+        ctx.check("C19:svh", sorted(int(k) for k in r.keys()) == exp_sizes, "C19:svh:sizes-reported", lambda: wit((sorted(r.keys()), exp_sizes)))
+        got_all = {}
+        for n in exp_sizes:
+            if n not in r:
+                continue
+            df = r[n]
+            edges_n = by_size[n]
+            rows = [tuple(x) for x in df["edge"]]
+            ctx.check("C19:svh", sorted(rows, key=repr) == sorted(edges_n, key=repr), "C19:svh:hyperedge-not-reported-exactly-once-under-its-size", lambda: wit((n, rows)))
+            N = sum(edges_n.values())
+            Kn = {}
+            for e, w in edges_n.items():
+                for v in e:
+                    Kn[v] = Kn.get(v, 0) + w
+            ps = {}
+            for e_, p in zip(rows, df["pvalue"]):
+                if e_ not in edges_n:
+                    continue
+                ref = ref_pvalue(edges_n[e_], N, [Kn[v] for v in e_])
+                ps[e_] = float(p)
+                err = abs(float(p) - ref)
+                tol = 1e-8 * abs(ref) + 1e-300
+                if err <= tol:
+                    ctx.tick("C19:svh")
+                elif err < 100 * tol:
+                    ctx.inconclusive_case("band:C19:svh:pvalue")
+                else:
+                    ctx.check("C19:svh", False, "C19:svh:pvalue-differs-from-binomial-tail", lambda: wit((n, e_, float(p), ref)))
+            # threshold recomputed from the reported p-values (step-up over k * 0.01 / C(n_a, n))
+            n_a = len({v for e in edges_n for v in e})
+            bonf = 0.01 / math.comb(n_a, n)
+            srt = np.sort(np.array(list(df["pvalue"]), dtype=float))
+            ks = np.arange(1, len(srt) + 1) * bonf
+            below = ks[srt < ks]
+            thr = below[-1] if len(below) else 0
+            val = [bool(x) for x in df["fdr"]]
+            exp_val = [bool(float(p) < thr) for p in df["pvalue"]]
+            ctx.check("C19:svh", val == exp_val, "C19:svh:validated-set-is-not-{p<threshold}", lambda: wit((n, val, exp_val, thr)))
+            pv = [float(p) for p in df["pvalue"]]
+            mono = all(not (val[i] and not val[j] and pv[j] < pv[i]) for i in range(len(pv)) for j in range(len(pv)))
+            ctx.check("C19:svh", mono, "C19:svh:validated-while-a-smaller-pvalue-is-not", lambda: wit((n, pv, val)))
+            got_all[n] = {repr(e_): (float(p), bool(f)) for e_, p, f in zip(rows, df["pvalue"], df["fdr"])}
+
+        return got_all
+
+    h = hgx.Hypergraph(list(es), weighted=weighted, weights=list(es.values()) if weighted else None)
+    got_all = judge(es, h)
+    if got_all is None:
         return
     by_size = {}
     for e, w in es.items():
         by_size.setdefault(len(e), {})[e] = w
-    exp_sizes = sorted(n for n in by_size if 2 <= n <= max_order)
-    ctx.check("C19:svh", sorted(int(k) for k in r.keys()) == exp_sizes, "C19:svh:sizes-reported", lambda: wit((sorted(r.keys()), exp_sizes)))
-    got_all = {}
-    for n in exp_sizes:
-        if n not in r:
-            continue
-        df = r[n]
-        edges_n = by_size[n]
-        rows = [tuple(x) for x in df["edge"]]
-        ctx.check("C19:svh", sorted(rows, key=repr) == sorted(edges_n, key=repr), "C19:svh:hyperedge-not-reported-exactly-once-under-its-size", lambda: wit((n, rows)))
-        N = sum(edges_n.values())
-        Kn = {}
-        for e, w in edges_n.items():
-            for v in e:
-                Kn[v] = Kn.get(v, 0) + w
-        ps = {}
-        for e_, p in zip(rows, df["pvalue"]):
-            if e_ not in edges_n:
-                continue
-            ref = ref_pvalue(edges_n[e_], N, [Kn[v] for v in e_])
-            ps[e_] = float(p)
-            err = abs(float(p) - ref)
-            tol = 1e-8 * abs(ref) + 1e-300
-            if err <= tol:
-                ctx.tick("C19:svh")
-            elif err < 100 * tol:
-                ctx.inconclusive_case("band:C19:svh:pvalue")
-            else:
-                ctx.check("C19:svh", False, "C19:svh:pvalue-differs-from-binomial-tail", lambda: wit((n, e_, float(p), ref)))
-        # threshold recomputed from the reported p-values (step-up over k * 0.01 / C(n_a, n))
-        n_a = len({v for e in edges_n for v in e})
-        bonf = 0.01 / math.comb(n_a, n)
-        srt = np.sort(np.array(list(df["pvalue"]), dtype=float))
-        ks = np.arange(1, len(srt) + 1) * bonf
-        below = ks[srt < ks]
-        thr = below[-1] if len(below) else 0
-        val = [bool(x) for x in df["fdr"]]
-        exp_val = [bool(float(p) < thr) for p in df["pvalue"]]
-        ctx.check("C19:svh", val == exp_val, "C19:svh:validated-set-is-not-{p<threshold}", lambda: wit((n, val, exp_val, thr)))
-        pv = [float(p) for p in df["pvalue"]]
-        mono = all(not (val[i] and not val[j] and pv[j] < pv[i]) for i in range(len(pv)) for j in range(len(pv)))
-        ctx.check("C19:svh", mono, "C19:svh:validated-while-a-smaller-pvalue-is-not", lambda: wit((n, pv, val)))
-        got_all[n] = {repr(e_): (float(p), bool(f)) for e_, p, f in zip(rows, df["pvalue"], df["fdr"])}
+
+    def wit(extra=None):
+        return {"edges": {repr(e): w for e, w in es.items()}, "weighted": weighted, "max_order": max_order, "extra": repr(extra)[:900]}
+
+    ws_ = list(es.values())
+    if weighted and len(set(ws_)) >= 2 and len(ws_) >= 2:
+        # right after: the SAME hyperedges in the same order with the weights moved round by one place (same total weight) - on a
+        # new object, and on the first object through set_weight; each is judged by itself against the binomial tail
+        rot = ws_[1:] + ws_[:1]
+        es2 = dict(zip(es, rot))
+        ctx.event("svh:same-hyperedges-weights-rotated")
+        h2 = hgx.Hypergraph(list(es2), weighted=True, weights=list(es2.values()))
+        if judge(es2, h2, "weights-rotated(new object)") is None:
+            return
+        for e_, w_ in es2.items():
+            h.set_weight(e_, w_)
+        if judge(es2, h, "weights-rotated(same object, set_weight)") is None:
+            return
+        judge(es, hgx.Hypergraph(list(es), weighted=True, weights=list(es.values())), "original-weights-again")
     # mp=True in a subprocess with timeout (a dying Pool child would hang forever)
     if idx % 75 == 2:
         payload = json.dumps({"edges": [[list(e), w] for e, w in es.items()], "weighted": weighted, "max_order": max_order})
